@@ -37,6 +37,13 @@ func RenameArgumentsAction(newNames []string) RewriteAction {
 				if assignment.Value.Argument != nil && assignment.Value.Argument.Name == previousName {
 					option.Assignments[j].Value.Argument.Name = newNames[i]
 				}
+
+				// constraints refer to the argument by name too
+				for k, constraint := range assignment.Constraints {
+					if constraint.Argument.Name == previousName {
+						option.Assignments[j].Constraints[k].Argument.Name = newNames[i]
+					}
+				}
 			}
 		}
 
